@@ -653,6 +653,10 @@ class Engine:
                 out.append((s, v))
                 continue
             self.cur_await_node = n
+            if isinstance(v, VFunc) and v.kind == "coro":
+                for s2, r2 in self.call_py(v.fv, v.args, v.kwargs, s, run_coro=True):
+                    out.append((s2, r2))
+                continue
             out.extend(self.builtin_mod.await_(self, s, v))
         return out
 
@@ -720,7 +724,10 @@ class Engine:
     def full_name(self, fv: VFunc):
         return f"{fv.module}.{fv.qualname}"
 
-    def call_py(self, fv: VFunc, args, kwargs, st: State):
+    def call_py(self, fv: VFunc, args, kwargs, st: State, run_coro=False):
+        if isinstance(fv.node, ast.AsyncFunctionDef) and not run_coro:
+            # calling an `async def` only creates the coroutine object; its body runs where it is awaited
+            return [(st, VFunc("coro", fv=fv, args=list(args), kwargs=dict(kwargs), name=fv.qualname))]
         name = self.full_name(fv)
         c = self.contracts.get(name)
         if c is not None and getattr(c, "model", None) is not None and self.current_target != name:
@@ -730,7 +737,7 @@ class Engine:
         if c is not None or name in self.inline or fv.qualname == "<lambda>" or fv.closure is not None \
                 or fv.module.startswith("models") or fv.module.startswith("specs") or fv.module.startswith("contracts"):
             return self.inline_call(fv, args, kwargs, st)
-        if self.auto_inline and fv.module.startswith("aioesphomeapi") and not isinstance(fv.node, ast.AsyncFunctionDef):
+        if self.auto_inline and fv.module.startswith("aioesphomeapi") and (not isinstance(fv.node, ast.AsyncFunctionDef) or "await" in self.hooks):
             # a synchronous function of the package without a contract: executing its real body in place is exact
             # (a helper extracted by a refactoring must not make the caller 'unsupported')
             self.assumptions_used.add(f"inlined (no contract): {name}")
